@@ -40,7 +40,13 @@ def main():
                 if os.path.isdir(os.path.join(REPO, sub)):
                     shutil.copytree(os.path.join(REPO, sub), os.path.join(d, sub))
             ok_apply = True
-            for ed in m['edits']:
+            if m.get('patch'):
+                rp = subprocess.run(['patch', '-p1', '-s', '-d', d, '-i', os.path.join(VERIF, m['patch'])], capture_output=True, text=True)
+                if rp.returncode != 0:
+                    print('SELFTEST-BROKEN %s: patch does not apply: %s' % (m['name'], rp.stdout[-300:]))
+                    fails += 1
+                    continue
+            for ed in m.get('edits', []):
                 p = os.path.join(d, ed['file'])
                 s = open(p).read()
                 if s.count(ed['old']) != ed.get('count', 1):
